@@ -1,9 +1,11 @@
 CONSTANTS
-  Tokens <- MCTokens
+  TokenIds = {"OO", "acetone", "MeOH", "ethane"}
   Atoms = {"C", "O"}
   Objs = {"o1", "o2"}
   Scope = "process"
   MaxCalls = 5
+  TC <- MCTrue
 SPECIFICATION Spec
+CONSTRAINT Bounded
 INVARIANT AnswersAreTrue
 CHECK_DEADLOCK FALSE
